@@ -20,4 +20,28 @@ let do_parsedecseq toks =
   let rs = go toks in
   if !unmodelled then "unmodelled" else Str_.concat " | " rs
 
-let () = register "parsedecseq" do_parsedecseq
+(* rangeapi: YangRange.Less / IsSorted / Validate / Sort on a hand-built range (Model/Range.v) *)
+let do_rangeapi toks =
+  match toks with
+  | [tok] ->
+    let r = Cmd_num.parse_range_tok tok in
+    let tf b = if b then "t" else "f" in
+    let less = Str_.concat "" (L.concat_map (fun a -> L.map (fun b -> tf (Range.rLess a b)) r) r) in
+    let sorted = Range.coq_Sort r in
+    "less=" ^ (if less = "" then "-" else less) ^ " sorted=" ^ tf (Range.is_sorted r) ^ " valid=" ^ tf (Range.coq_Validate r)
+    ^ " sort=" ^ Cmd_num.show_range sorted ^ " validsorted=" ^ tf (Range.coq_Validate sorted)
+  | _ -> "bad-case"
+
+(* stringpar: String is a function; what concurrent callers get is what each would get alone *)
+let do_stringpar toks =
+  match toks with
+  | _iters :: nums ->
+    let one x = match Str_.split_on_char ':' x with
+      | [v; f; n] ->
+        (match Number.coq_String_ (Cmd_num.mk_number v f n) with
+         | Outcome.Ok s -> hex_of_bytes s | Outcome.Err -> "err" | Outcome.Panic -> "panic" | Outcome.Unmodelled -> "unmodelled")
+      | _ -> failwith "number" in
+    Str_.concat " " (L.map one nums)
+  | _ -> "bad-case"
+
+let () = register "parsedecseq" do_parsedecseq; register "rangeapi" do_rangeapi; register "stringpar" do_stringpar
